@@ -26,13 +26,17 @@ class Sched:
         self.c = {t: [0] + [fx.get('cs_%d_%d' % (t, r), var('cs_%d_%d' % (t, r), PW)) for r in range(1, K + 1)] for t in range(1, T + 1)}
         self.n = {t: var('n_%d' % t, PW) for t in range(1, T + 1)}
         self.fixed_c = None
+        self.missing = 0
 
     def posvar(self, t, key):
         v = self.pos.get(key)
         if v is None:
             if self.posmap is not None:
                 v = self.posmap.get(key)
-                if v is None: raise MissingKey(key)
+                if v is None:
+                    # operation not seen by the ranking run: keep going with a placeholder, the caller re-ranks and re-runs
+                    self.missing += 1
+                    v = var('pos_%d_x%d' % (t, self.missing), PW)
                 self.pos[key] = v
             else:
                 v = self.pos[key] = var('pos_%d_%d' % (t, len(self.keys[t])), PW)
@@ -62,10 +66,11 @@ class Sched:
         self.ranks = {}
         for t in range(1, self.T + 1):
             ks = sorted(self.keys[t])
+            for i, k in enumerate(ks):
+                self.ranks[k] = i + 1
             if self.posmap is None:
                 for i, k in enumerate(ks):
                     term.VAR_DEFS[self.pos[k].args[0]] = i + 1
-                    self.ranks[k] = i + 1
                 n = len(ks) + 1
             else:
                 n = self.posmap[('n', t)]
@@ -84,6 +89,7 @@ def run_threads(m, sc, log=None):
     sch = Sched(m, T, K, sc.stop, getattr(m, 'posmap', None))
     m.sched = sch
     cap0 = m.hard_loop_cap; m.hard_loop_cap = getattr(sc, 'mt_loop_cap', 200)
+    scap0 = m.sym_loop_cap; m.sym_loop_cap = getattr(sc, 'mt_sym_loop_cap', 24)
     t0 = time.time()
     for r in range(1, K + 1):
         for t in range(1, T + 1):
@@ -98,10 +104,12 @@ def run_threads(m, sc, log=None):
             m.thread_exit()
             if log: log('    pass r%d t%d: %d terms, %d obligations, %.1fs' % (r, t, term.nterms(), len(m.obligations), time.time() - t0))
     m.win = None; m.before = None
-    m.hard_loop_cap = cap0
+    m.hard_loop_cap = cap0; m.sym_loop_cap = scap0
     m.cur = m.threads[0]
     m.pass_no = K * T + 1
     sch.finish()
+    if sch.posmap is not None and sch.missing:
+        raise MissingKey(sch)
 
 
 def optime(m, op, begin):
